@@ -8,9 +8,9 @@ sys.path.insert(0, os.path.dirname(os.path.abspath(__file__)))
 from framework import REPO
 
 TIE = ["Nsq.Tie.ToolsToFile", "Nsq.Tie.ToolsToFileFn"]
-PROPS = ["Nsq.Props.C19", "Nsq.Props.C19Name"]
+PROPS = ["Nsq.Props.C19", "Nsq.Props.C19Name", "Nsq.Props.C19Disc"]
 CORPUS = os.path.join(fw.ROOT, "corpus", "C19")
-HARNESS = ["e8/tofile_test.go", "e8/tofile_names_test.go", "e8/stub_nsqd.go"]
+HARNESS = ["e8/tofile_test.go", "e8/tofile_names_test.go", "e8/tofile_disc_test.go", "e8/stub_nsqd.go"]
 
 
 def build_pair(ctx):
@@ -213,6 +213,7 @@ def run(ctx):
                 corr_broken.append("syscall leg saw no FIN marker")
     if parent and not ctx.replay_in:
         names_leg(ctx, parent, corr_broken)
+        disc_leg(ctx, parent, corr_broken)
     # known finding replay: the tool as shipped (router behind go-nsq's handlerLoop, max_attempts 5)
     if parent and not ctx.replay_in:
         rc, log = ctx.run_cmd([parent, "-test.run", "^TestVerifToFileGiveUp$", "-test.count=1"], timeout=120)
@@ -319,6 +320,51 @@ def names_leg(ctx, parent, corr_broken):
         ctx.log("model/impl disagree on `%s`:\n   impl =%s\n   model=%s" % (ops[idx][:160], a[:200], b[:200]))
         corr_broken.append("correspondence names op %s" % ops[idx].split()[1])
     for o, i in list(zip(ops, impl))[:3]:
+        ctx.add_sample({"op": o[:160], "impl": i[:160]})
+
+
+def disc_leg(ctx, parent, corr_broken):
+    """TopicDiscoverer: the real run() against a scripted stub lookupd vs the Lean model; direct oracles in the
+    harness (exactly the allowed+creatable topics have a logger; after SIGTERM run() returns, every logger was
+    told to terminate, stopped its consumer and closed its file)."""
+    out = os.path.join(ctx.work, "tf_disc")
+    os.makedirs(out, exist_ok=True)
+    rc, log = ctx.run_cmd([parent, "-test.run", "^TestVerifToFileDiscover$", "-test.count=1", "-test.timeout=0"],
+                          timeout=ctx.budget(400, 1500),
+                          env={"VERIF_SEED": ctx.seed, "VERIF_N": ctx.budget(40, 400), "VERIF_OUT": out})
+    if rc != 0 or "ORACLE-DONE disc" not in log:
+        ctx.log("discoverer harness failed:\n" + log[-1500:])
+        corr_broken.append("discoverer harness exit %s" % rc)
+        return
+    ops = open(os.path.join(out, "tfdisc.ops")).read().splitlines()
+    impl = open(os.path.join(out, "tfdisc.impl")).read().splitlines()
+    rc, mout = ctx.driver("e8", stdin_path=os.path.join(out, "tfdisc.ops"))
+    model = mout.splitlines()
+    model = [("*" if i < len(impl) and impl[i] == "*" else m) for i, m in enumerate(model)]   # unobserved intermediate polls
+    hist = {}
+    for l in log.splitlines():
+        if l.startswith("HIST "):
+            _, k, v = l.split()
+            hist[k] = int(v)
+        if l.startswith("ORACLE-FAIL disc"):
+            m = re.match(r"ORACLE-FAIL disc case=(\d+) (.*)", l)
+            c = int(m.group(1))
+            # the ops of that case are the replay
+            starts = [i for i, o in enumerate(ops) if o.startswith("td new")]
+            seg = ops[starts[c]:(starts[c + 1] if c + 1 < len(starts) else len(ops))] if c < len(starts) else []
+            ctx.violation("tofile-disc:" + "-".join(re.sub(r"[^a-z ]", "", re.sub(r'"[^"]*"', "", m.group(2).lower())).split()[:6]),
+                          "nsq_to_file TopicDiscoverer: " + m.group(2), "\n".join(seg) + "\n")
+    ctx.corr["discoverer"] = {"ops": len(ops), "histogram": hist}
+    for o, i in zip(ops, impl):
+        if i != "*":
+            ctx.count_case(o + "|" + i, nontrivial=not o.startswith("td new"))
+    for idx, a, b in ctx.diff_lines(impl, model, "tofile-disc"):
+        ctx.log("model/impl disagree on `%s`:\n   impl =%s\n   model=%s" % (ops[idx][:160], a[:200], b[:200]))
+        corr_broken.append("correspondence discoverer op %s" % ops[idx].split()[1])
+        if ops[idx].startswith("td term") and a.startswith("returned=1"):
+            # run() returned although a logger was not terminated / stopped: a logger left behind
+            ctx.violation("tofile-disc:term", "nsq_to_file TopicDiscoverer after SIGTERM: " + a + " (model: " + b + ")", ops[idx] + "\n")
+    for o, i in list(zip(ops, impl))[1:4]:
         ctx.add_sample({"op": o[:160], "impl": i[:160]})
 
 
